@@ -37,7 +37,8 @@ def parseIntList (s : String) : Option (List Int) :=
 def check (input impl : String) : Verdict :=
   match fields input ";" with
   | hd :: ops =>
-    match words hd with
+    -- "treed": pairs of nodes share an id; routing is by position, so the model does not care
+    match (match words hd with | "treed" :: r => "tree" :: r | w => w) with
     | "tree" :: "S" :: ss :: sf :: nr :: rest =>
       match nr.toNat? >>= (fun n => parseL (rest.length + 2) n rest) with
       | some (roots, []) =>
